@@ -20,9 +20,12 @@ Section Whole.
   Variable shape : list Z.
   Variable a : idx -> A.
   Hypothesis Hsh : Forall (fun n => 0 <= n) shape.
+  Variable unb : garr A -> garr A.
+  Variable st : Z.
+  Hypothesis Hunb : unb_sound A res R isfin ispos unb st.
 
-  Local Notation GSTEP := (gen_step A res R nan zero isfin ispos shape a).
-  Local Notation GREC := (gen_rec A res R nan zero isfin ispos shape a).
+  Local Notation GSTEP := (gen_step A res R nan zero isfin ispos shape a unb).
+  Local Notation GREC := (gen_rec A res R nan zero isfin ispos shape a unb).
   Local Notation FILT := (filt_of A isfin ispos).
 
   Ltac gcbv := cbv beta iota zeta delta [pv view_is_list to_tuple view_is_none view_is_ellipsis view_is_tuple g_truthy g_is_slice_state
@@ -30,21 +33,25 @@ Section Whole.
 
   (* SliceSubsetState, view=None, axis=None: data = subset_state.to_array(self, cid), no mask *)
   Lemma body_shortcut : forall rec fuel sl fin pos ncm,
-    GSTEP rec fuel (SelSlices sl) AxNone fin pos PVNone ncm =
+    GSTEP rec fuel st (SelSlices sl) AxNone fin pos PVNone ncm =
     Ok (stat_view A res R nan shape a (FILT fin pos) None sl (red_of_axes (zlen shape) None)).
   Proof.
     intros rec fuel sl fin pos ncm. unfold gen_step, compute_statistic_step. gcbv. rewrite ?if_same.
-    unfold g_compute_statistic, g_to_array, stat_view. cbn [fst snd axes_of]. cbv zeta.
-    rewrite (red_of_axes_len (vshape (view_pos shape sl)) shape None)
-      by (unfold vshape; rewrite map_length; apply view_pos_length).
-    reflexivity.
+    assert (Hk : forall d, g_compute_statistic A res R isfin ispos st d None AxNone fin pos tt
+                      = (out_shape (fst d) (red_of_axes (zlen (fst d)) None),
+                         reduce A res R (fst d) (snd d) (fun j => true && FILT fin pos (snd d j)) (red_of_axes (zlen (fst d)) None))) by reflexivity.
+    destruct (existsb (Z.eqb st) [4; 5]) eqn:E; rewrite ?if_same.
+    2: rewrite Hunb by (unfold unb_guard; rewrite E; reflexivity).
+    all: rewrite Hk; unfold g_to_array, stat_view; cbn [fst snd]; cbv zeta;
+      rewrite (red_of_axes_len (vshape (view_pos shape sl)) shape None) by (unfold vshape; rewrite map_length; apply view_pos_length);
+      reflexivity.
   Qed.
 
   (* ---- the translated function outside the chunk loop and outside the shortcut: shape and every element ---- *)
   Theorem gen_step_definition : forall rec fuel s ax fin pos o ncm,
     chunk_cond shape s ax (pv o) ncm = false ->
     shortcut s ax (pv o) = false ->
-    exists r, GSTEP rec fuel s ax fin pos (pv o) ncm = Ok r /\
+    exists r, GSTEP rec fuel st s ax fin pos (pv o) ncm = Ok r /\
       let sels := view_sel shape (entries o) in
       let vsh := sel_shape sels in
       let red := red_of_axes (zlen vsh) (axes_of ax) in
@@ -57,14 +64,14 @@ Section Whole.
     assert (Hl : length red = length vsh) by apply red_of_axes_length.
     destruct s as [|m|sl].
     - exists (stat_view_e A res R nan shape a (FILT fin pos) None (entries o) red). split.
-      + apply body_none. exact Hch.
+      + apply body_none; [exact Hunb|exact Hch].
       + exact (stat_view_e_correct A res R nan R_nil shape a (FILT fin pos) None (entries o) red Hsh Hl).
-    - destruct (body_mask A res R nan zero isfin ispos shape a rec fuel (SelMask m) ax fin pos o ncm Hsh eq_refl Hch Hsc) as [r [Hr [He1 He2]]].
+    - destruct (body_mask A res R nan zero isfin ispos shape a unb st rec fuel (SelMask m) ax fin pos o ncm Hsh eq_refl Hch Hsc) as [r [Hr [He1 He2]]].
       exists r. split; [exact Hr|].
       destruct (stat_view_e_correct A res R nan R_nil shape a (FILT fin pos) (Some (g_mask_fun shape (SelMask m))) (entries o) red Hsh Hl) as [H1 H2].
       fold sels vsh red in He1, He2. split; [rewrite He1; exact H1|].
       intros o' Ho'. rewrite He2 by (rewrite He1, H1; exact Ho'). apply H2. exact Ho'.
-    - destruct (body_mask A res R nan zero isfin ispos shape a rec fuel (SelSlices sl) ax fin pos o ncm Hsh eq_refl Hch Hsc) as [r [Hr [He1 He2]]].
+    - destruct (body_mask A res R nan zero isfin ispos shape a unb st rec fuel (SelSlices sl) ax fin pos o ncm Hsh eq_refl Hch Hsc) as [r [Hr [He1 He2]]].
       exists r. split; [exact Hr|].
       destruct (stat_view_e_correct A res R nan R_nil shape a (FILT fin pos) (Some (g_mask_fun shape (SelSlices sl))) (entries o) red Hsh Hl) as [H1 H2].
       fold sels vsh red in He1, He2. split; [rewrite He1; exact H1|].
@@ -73,6 +80,6 @@ Section Whole.
 
   (* the entry point with its explicit recursion fuel *)
   Lemma gen_compute_statistic_S : forall rf fuel s ax fin pos v ncm,
-    gen_compute_statistic A res R nan zero isfin ispos shape a (S rf) fuel s ax fin pos v ncm = GSTEP (GREC rf fuel) fuel s ax fin pos v ncm.
+    gen_compute_statistic A res R nan zero isfin ispos shape a unb (S rf) fuel st s ax fin pos v ncm = GSTEP (GREC rf fuel) fuel st s ax fin pos v ncm.
   Proof. reflexivity. Qed.
 End Whole.
